@@ -2,6 +2,7 @@
     Statements are in VekProofs.C19_spec; programs are regenerated from /repo by symx. *)
 From VekLib Require Import Ops RingOps LinAlg MachineInt.
 From VekProofs Require Import C19_spec C19_proofs.
+Require Import ZArith.
 
 Theorem C19_conv : forall C : cring, C19_conv_stmt C.       Proof. exact C19_proofs.C19_conv. Qed.
 Theorem C19_swizzle : forall C : cring, C19_swizzle_stmt C. Proof. exact C19_proofs.C19_swizzle. Qed.
@@ -16,3 +17,9 @@ Print Assumptions C19_shuffle.
 Print Assumptions C19_color.
 Print Assumptions C19_embed.
 Print Assumptions C19_int_invert.
+
+(** the hypotheses of C19_int_invert are satisfiable: an 8-bit unsigned colour *)
+Example C19_int_example :
+  let s := {| signed := false; width := 8; dbg := true |} in
+  (0 < width s)%Z /\ comp_ok s 3 (fun i => match i with O => 0%Z | S O => 200%Z | _ => 255%Z end).
+Proof. split; [ reflexivity | ]. intros i Hi. cbv [imax signed width]. destruct i as [|[|[|i]]]; cbn; Lia.lia. Qed.
